@@ -31,6 +31,19 @@ ALL_GETTERS = list(SINGLE_SOURCE) + ["username", "memory_maps",
                                      "io_counters", "threads", "ionice",
                                      "cpu_affinity", "open_files"]
 STAT_GETTERS = ("name", "status", "cpu_times", "cpu_num", "terminal")
+# the shared / memoised source each getter is documented to be served from
+# inside a oneshot() block ("on Linux the per-process stat, status and smaps
+# records", plus the memoised memory_info); getters not listed here consult
+# the OS afresh on every call, zombie probes included
+SERVED_BY = {
+    "name": ("stat",), "status": ("stat",), "ppid": ("stat",),
+    "cpu_times": ("stat",), "cpu_num": ("stat",), "terminal": ("stat",),
+    "uids": ("status",), "gids": ("status",), "num_threads": ("status",),
+    "num_ctx_switches": ("status",), "username": ("status",),
+    "cpu_affinity": ("status",),
+    "memory_maps": ("smaps",), "memory_full_info": ("smaps",),
+    "memory_info": ("statm",), "memory_percent": ("statm",),
+}
 FILES = ("stat", "status", "smaps", "statm", "cmdline", "environ", "io",
          "smaps_rollup")
 SHARED_SOURCES = ("stat", "status", "smaps")
@@ -314,8 +327,14 @@ class Threads(EngineBase):
                 # same answer
                 if name not in ("cpu_percent", "create_time", "exe"):
                     cands = []
+                    # (a) the shared / memoised source this getter is
+                    # documented to be served from, pinned at its first read
+                    # in the block; every other file as it is now
+                    served = SERVED_BY.get(name, ())
                     pins_all = {}
                     for w, v in block["first"].items():
+                        if w not in served:
+                            continue
                         pr = k.proc_at(T, v)
                         if pr is not None:
                             pins_all[(T, w)] = pr
@@ -325,13 +344,27 @@ class Threads(EngineBase):
                         cands.append(self._eval(psutil, k, name))
                         ok = self._same(cands[-1], got)
                     if not ok:
+                        # (b) one consistent moment: everything as it was at
+                        # a version at which the block read something
+                        for v in sorted({v_ for _, v_ in
+                                         block.get("allreads", [])}):
+                            pr = k.proc_at(T, v)
+                            if pr is None:
+                                continue
+                            c = self._eval(psutil, k, name,
+                                           procs_override={T: pr})
+                            cands.append(c)
+                            if self._same(c, got):
+                                ok = True
+                                break
+                    if not ok and served:
                         # any single file pinned at any version at which the
                         # block read it (psutil's own zombie / existence
                         # probes read /proc/<pid>/stat outside the cache, so
                         # the cached record may stem from a later read)
                         tried = set()
                         for (w, v) in block.get("allreads", []):
-                            if (w, v) in tried:
+                            if (w, v) in tried or w not in served:
                                 continue
                             tried.add((w, v))
                             pr = k.proc_at(T, v)
